@@ -36,7 +36,7 @@ def site_problems(info):
             why.append("source not indexed (%s: %s)" % r["src"])
         if any(a != "map" for a in r["adaptors"]):
             why.append("adaptors %s" % r["adaptors"])
-        if r["sink"][0] != "collect_vec":
+        if r["sink"][0] not in ("collect_vec", "collect_result_vec"):
             why.append("sink %s %s" % r["sink"])
         if not r["post"] or any(p not in ("seq_for", "seq_iter", "returned") for p in r["post"]):
             why.append("result consumed by %s" % r["post"])
@@ -49,6 +49,15 @@ def site_problems(info):
     want = ["betweenness_centrality", "closeness_centrality", "all_pairs", "multi_source"]
     if fns != want:
         out.append("functions with a rayon call site are %s, expected %s" % (fns, want))
+    # which region each function uses (C07_par_site_shapes): the centrality loops collect into a Vec, all_pairs /
+    # multi_source collect Result items into Result<Vec<_>, Error> (repair of F22) - what Model/ParFns.v transcribes
+    want_sink = {"betweenness_centrality": "collect_vec", "closeness_centrality": "collect_vec",
+                 "all_pairs": "collect_result_vec", "multi_source": "collect_result_vec"}
+    for r in info.get("sites", []):
+        if r["fn"] in want_sink and r["sink"][0] in ("collect_vec", "collect_result_vec") \
+                and r["sink"][0] != want_sink[r["fn"]]:
+            out.append("rayon call site %s:%s (%s) collects with `%s %s` but Model/ParFns.v transcribes `%s` for it"
+                       % (r["file"], r["line"], r["fn"], r["sink"][0], r["sink"][1], want_sink[r["fn"]]))
     if info.get("unsafe"):
         out.append("unsafe code in the crate: %s" % info["unsafe"][:5])
     if info.get("interior"):
@@ -78,7 +87,11 @@ class ParProp(props.BaseProp):
     rule = ("graph cases: random directed / undirected graphs with threshold+1 .. 60 nodes (threshold = the extracted "
             "`number_of_nodes() > K`, currently 20), node names inserted in shuffled order, edge density 1.2-4 edges "
             "per node, weights unweighted / dyadic (k/8) / non-dyadic (0.1*k, so that the order of a float sum would "
-            "show) / small integers with many ties; on each graph all_pairs (random cutoff / first_only / with_paths), "
+            "show) / small integers with many ties; every eighth graph (separate PRNG stream) is re-weighted with "
+            "integers 1..3 of which about one in 12 is NEGATED, and only the three dijkstra.rs functions are called on "
+            "it, weighted: the per-source search returns Err(ContradictoryPaths) from some sources, and all_pairs / "
+            "multi_source must return that Err (F22: they panicked) identically under every pool size and equal to "
+            "the serial per-source reference, involving the empty vector; on each (other) graph all_pairs (random cutoff / first_only / with_paths), "
             "multi_source (random source subset), get_all_shortest_paths_involving, betweenness_centrality and "
             "closeness_centrality (random flags) are each run inside ThreadPool::install for pool sizes "
             "1,2,3,4,8,16 x 2 repetitions, once on the global pool, and against a serial reference assembled from "
@@ -88,7 +101,11 @@ class ParProp(props.BaseProp):
             "(Run/RunPar.v), which must reproduce the collected vector and accept the schedule as a permutation; the "
             "same probe then runs the region with FAILING items (item i panics with payload i iff xs[i] is divisible "
             "by 7, low indices made slow) and the re-raised payload must be the lowest failing index, which is what "
-            "the model's region (gather_par under the reversed schedule, run_plan on a right-first plan) reports. "
+            "the model's region (gather_par under the reversed schedule, run_plan on a right-first plan) reports; and "
+            "with items that RETURN Err(i) (same rule), collected into Result<Vec<_>, E> like all_pairs / multi_source: the "
+            "index whose error rayon kept is reported and must be admitted by the model's gather_result_par (it is an erring "
+            "item and the region returns an error when that item runs first; Ok iff no item errs, with the vector map f "
+            "xs), the serial collect must keep the lowest erring index (observations 64 / 65). "
             "non-trivial = graph above the threshold whose result has > 100 words, or a probe with >= 21 items; "
             "distinct = distinct case text. This part is exploration (testing), not proof.")
 
@@ -97,7 +114,7 @@ class ParProp(props.BaseProp):
         return max(ts) if ts else 20
 
     # ------------------------------------------------------------------ generation
-    def gen_graph(self, r, idx, big):
+    def gen_graph(self, r, idx, big, neg=None):
         thr = self.threshold()
         n = thr + 1 + r.below(max(1, 60 - thr)) if not big else 61 + r.below(60)
         if r.chance(1, 12):
@@ -131,6 +148,21 @@ class ParProp(props.BaseProp):
                 w = float(1 + r.below(3))
             out.append((u, v, bits(w)))
         weighted = wmode != "none"
+        if neg is not None:
+            # NEGATIVE-WEIGHT VARIANT (separate PRNG stream `neg`; the graph and the main stream stay as they were):
+            # integer weights 1..3, about one edge in 12 negated.  The per-source search then returns
+            # Err(ContradictoryPaths) from some sources; since the repair of F22 all_pairs / multi_source return
+            # that Err (they panicked) - under every pool size, equal to the serial per-source reference; involving
+            # returns the empty vector.  The centrality functions are not called on these graphs.
+            out_neg = [(u, v, bits(float((1 + neg.below(3)) * (-1 if neg.chance(1, 12) else 1)))) for (u, v, _) in out]
+            k = 1 + neg.below(n)
+            srcs = [neg.below(n) for _ in range(k)]
+            calls_neg = ["all_pairs 1 0 %s 0 1" % bits(0.0), "all_pairs 1 0 %s 0 0" % bits(0.0),
+                         "all_pairs 1 1 %s %d 1" % (bits(2.0 + neg.below(6)), int(neg.chance(1, 2))),
+                         "multi_source 1 %d %d %s" % (int(neg.chance(1, 3)), int(neg.chance(2, 3)),
+                                                      " ".join(map(str, srcs))),
+                         "multi_source 1 0 1 %d" % neg.below(n),
+                         "involving 1 %d" % neg.below(n)]
         calls = []
         wflag = lambda: int(weighted and r.chance(3, 4))  # noqa: E731
         cutoff = r.chance(1, 4)
@@ -148,15 +180,19 @@ class ParProp(props.BaseProp):
         calls.append("closeness %d %d" % (int(weighted), int(r.chance(1, 2))))
         if idx % 4 == 0:
             calls.append("hammer %d %d" % (int(weighted), 60))
+        if neg is not None:
+            # (the main stream has been consumed exactly as without the variant)
+            out, calls, wmode = out_neg, calls_neg, "neg"
         return {"kind": "graph", "directed": directed, "n": n, "names": names, "edges": out, "calls": calls,
                 "wmode": wmode}
 
     def gen(self, seed, n):
         r = gv.SplitMix(seed * 104729 + 7)
+        rneg = gv.SplitMix(seed * 15485863 + 22)
         cases = []
         n_graph = max(1, (n * 2) // 3)
         for i in range(n_graph):
-            c = self.gen_graph(r, i, big=(n > 200 and i % 10 == 9))
+            c = self.gen_graph(r, i, big=(n > 200 and i % 10 == 9), neg=(rneg if i % 8 == 3 else None))
             c["id"] = "p%d" % len(cases)
             cases.append(c)
         while len(cases) < n:
@@ -185,10 +221,10 @@ class ParProp(props.BaseProp):
 
     def to_coq(self, c):
         s = c.get("sched", [[], []])
-        return "PProbe %s %s %s" % (self._zl(c["xs"]), self._zl(s[0]), self._zl(s[1]))
+        return "PProbe %s %s %s %s" % (self._zl(c["xs"]), self._zl(s[0]), self._zl(s[1]), self._zl(c.get("kept", [])))
 
     def case_json(self, c):
-        d = {k: v for k, v in c.items() if k != "sched"}
+        d = {k: v for k, v in c.items() if k not in ("sched", "kept")}
         if "edges" in d:
             d["edges"] = [list(e) for e in d["edges"]]
         return d
@@ -196,6 +232,7 @@ class ParProp(props.BaseProp):
     def case_from_json(self, j):
         c = dict(j)
         c.pop("sched", None)
+        c.pop("kept", None)
         if "edges" in c:
             c["edges"] = [tuple(e) for e in c["edges"]]
         c.setdefault("id", "replay")
@@ -216,6 +253,8 @@ class ParProp(props.BaseProp):
                     for ob in impl.get(c["id"], []):
                         if ob[0] == 60:
                             c["sched"] = [list(ob[1][0]), list(ob[1][1])]
+                        if ob[0] == 65:
+                            c["kept"] = list(ob[1][0])
         return impl, errs
 
     def run_cases(self, cases, wd, tag="gen", build=True):
@@ -282,6 +321,22 @@ class ParProp(props.BaseProp):
                     if k != want_k:
                         msgs.append("rayon %s source with failing items: the region re-raised the panic of item %d, "
                                     "the serial loop (and the model) fail at item %d" % (which, k, want_k))
+            # items that RETURN an error, collected into Result<Vec<_>, E> (gather_result_par in Model/ParFns.v): the
+            # error kept is that of SOME erring item (rayon: not deterministic which), Ok iff no item errs; the
+            # serial collect keeps the lowest erring index
+            if 65 not in by:
+                msgs.append("probe produced no Result-collect observation")
+            else:
+                erring = [i for i, x in enumerate(c["xs"]) if x % 7 == 0]
+                e_vec, e_range, e_serial = by[65][1][0]
+                for which, e in (("Vec", e_vec), ("Range", e_range)):
+                    if (e == -1) != (not erring) or (e != -1 and e not in erring):
+                        msgs.append("rayon %s source, items returning Result: collect::<Result<Vec<_>,_>>() returned %s "
+                                    "but the erring items are %s" % (which, "Ok" if e == -1 else "the error of item %d" % e,
+                                                                     erring[:10]))
+                if e_serial != (erring[0] if erring else -1):
+                    msgs.append("serial collect::<Result<Vec<_>,_>>() returned item %d's error, lowest erring index is %s"
+                                % (e_serial, erring[:1]))
             return msgs
         ncalls = len([x for x in c["calls"] if not x.startswith("hammer")])
         rows = by[50][1] if 50 in by else []
